@@ -63,6 +63,11 @@ def run(prog, step_limit=200000):
         sys.setrecursionlimit(20000)
     it = refjs.Interp(step_limit=step_limit)
     install_sites(it)
+    desc = prog.get("desc") if isinstance(prog, dict) else None
+    if desc and desc.get("site") == "dyn":
+        # a raising call found in the engine at run time: it raises an error of the recorded constructor
+        ctor = desc["ctor"]
+        it.genv.vars["$x_dyn"] = it.native("$x_dyn", lambda it_, this, args: it.throw(ctor, "<implementation-defined>"), 0)
     try:
         res = it.run_program(body)
     except refjs.Budget as e:
